@@ -310,6 +310,21 @@ func scnTxnHistories(o *Out, r *Rng, thorough bool) {
 			o.Stat("flood:" + itoa(k) + own)
 		}
 	}
+	// a request whose Write fails (the peer saw part of it), then the next request,
+	// during which the peer answers the FAILED request first: the ids must differ
+	var wf []string
+	for k := 0; k < 6; k++ {
+		q := txnReq{regs: 1, rt: 0, addr: 0}
+		pre := ""
+		for j := 0; j < k; j++ {
+			pre += " ; call s " + writesStr([][]byte{replyTo(uint32(j), q, 1, 1, 1)}) + " ReadRegister 0 0"
+		}
+		wf = append(wf, "m 1 1 1"+pre+" ; callwf ReadRegister 0 0 ; call s "+
+			writesStr([][]byte{replyTo(uint32(k), q, 1, 1, 1)})+" ReadRegister 0 0 ; call s "+
+			writesStr([][]byte{replyTo(uint32(k+2), q, 1, 1, 1)})+" ReadRegister 0 0")
+		o.Stat("write-failure")
+	}
+	o.RunMany("ch", wf)
 	txnOutcomeStats(o, o.RunMany("txh", ins))
 	// the same histories against the hand-threaded "ch" model handler
 	o.RunMany("ch", ins)
